@@ -180,4 +180,16 @@ CLAIMS = {
                 "(fix b141a19).",
         "technique": "Lean 4 theorems over workflow trace model + exhaustive crash-point injection",
     },
+    "C13": {
+        "text": "Extensional equality, on the common domain, of a Lean transcription of each C++ kernel (aligned flag an input, uint32/uint64 "
+                "wrap-around explicit) with the NumPy-side model: C13_popcount(_wrap), C13_unpack(_some), C13_centroid('/_unpacked), C13_isim "
+                "(no hypothesis), C13_arrvec(_mixed), C13_dissim(_none/_mixed); and the domain restrictions as theorems: C13_unpack_rejects, "
+                "C13_unpack_undefined, C13_centroid_undefined, C13_arrvec_rejects, C13_dissim_rejects (the compiled kernels throw or read "
+                "out of bounds for n_features % 8 != 0). Tie: compiled kernels vs fallback bit for bit, vs the transcription, and end to end.",
+        "note": TB + "PARTIAL: the compiler, -O2 floating-point contraction (x86-64 SSE2: none), hardware popcnt and the fidelity of the ~90-line "
+                "pybind11 stand-in are trusted; the real pybind11 argument conversion (forcecast, non-contiguous inputs) and the real "
+                "import-time switch are not exercised (no pybind11, no built extension in this sandbox). Threshold n*0.5 is modelled as "
+                "2k >= n (exact below 2^53).",
+        "technique": "Lean 4 equivalence proofs between two transcriptions + out-of-tree compilation and ctypes differential",
+    },
 }
